@@ -8,6 +8,7 @@ package main
 //   - markerOpsByLength (markers.go)
 
 import (
+	rpypi "deps.dev/util/resolve/pypi"
 	"fmt"
 	"go/ast"
 	"go/parser"
@@ -70,7 +71,12 @@ func extractPypiFacts(repo string) (*pypiFacts, error) {
 	}
 	mk, ok := findValue(ef, token.VAR, "Markers").(*ast.CompositeLit)
 	if !ok {
-		return nil, fmt.Errorf("env.gen.go: var Markers is not a composite literal")
+		// not written as a literal: take the values the linked code holds at run time
+		mk = &ast.CompositeLit{}
+		_, platform := rpypi.VerifEnvironment()
+		for k, v := range platform {
+			out.Markers[k] = v
+		}
 	}
 	for _, el := range mk.Elts {
 		kv, ok := el.(*ast.KeyValueExpr)
@@ -146,7 +152,11 @@ func extractPypiFacts(repo string) (*pypiFacts, error) {
 	// environmentVariables
 	ev, ok := findValue(mf, token.VAR, "environmentVariables").(*ast.CompositeLit)
 	if !ok {
-		return nil, fmt.Errorf("markers.go: environmentVariables is not a composite literal")
+		// not written as a literal (built in init(), by a helper, ...): take the table the
+		// linked code holds at run time (hook pypi.VerifEnvironment; sorted by key)
+		ev = &ast.CompositeLit{}
+		vars, _ := rpypi.VerifEnvironment()
+		out.EnvVars = append(out.EnvVars, vars...)
 	}
 	seen := map[string]bool{}
 	for _, el := range ev.Elts {
